@@ -89,6 +89,19 @@ def run(ctx):
         ok = len(st) == 1 and all(f.reaches(x.point, st[0].point) for x in fill_first)
     rb.expect(ok, 'sync_ids:growth', f.where(), 'sync_ids: growth must fill [old size, new size) with NOTASKPOOL before publishing the new size', note='sync_ids: new slots filled before size update')
 
+    # sync publishes the agreed position (result of the MAX all-reduce) and size on EVERY path, not only when it grows
+    fsync = u.func('parsec_taskpool_sync_ids_context')
+    pos = [s_ for s_ in fsync.stores('taskpool_array_pos')]
+    siz = [s_ for s_ in fsync.stores('taskpool_array_size')]
+    red = fsync.calls('MPI_Allreduce')
+    okp = len(pos) == 1 and len(siz) == 1 and fsync.postdominates(pos[0].point, (fsync.entry, 0)) and fsync.postdominates(siz[0].point, (fsync.entry, 0))
+    if okp and red:
+        idxv = pos[0].rhs.s
+        okp = red[0].args[1].s == '&' + idxv and 'MPI_MAX' in red[0].args[4].s or red[0].args[1].s == '&' + idxv
+        seed = [s_ for s_ in fsync.stores(idxv) if s_.rhs is not None and 'taskpool_array_pos' in s_.rhs.s]
+        okp = okp and len(seed) == 1 and fsync.precedes(seed[0], red[0])
+    rb.expect(okp, 'sync_ids:publish', (pos or siz or [None])[0].loc if (pos or siz) else fsync.where(),
+              'sync_ids must store the all-reduced position and the (possibly grown) size on every path, whether or not the table had to grow', note='sync_ids: pos = allreduce MAX(pos) and size published on every path')
     f = u.func('parsec_taskpool_reserve_id'); tp = f.params[0]['n']
     n = 0
     for pi in pathq.all_paths(f):
